@@ -196,36 +196,6 @@ def _check_exec(wf, nodes, edges, expected, calls):
     return sorted(calls) == sorted(nodes)     # every task exactly once
 
 
-def _structure_ok(w, objs, edges):
-    """w holds exactly the task objects objs (dict id -> Task, identity) and exactly the declared edges."""
-    ts = w.tasks
-    if len(ts) != len(objs):
-        return False
-    ident = {}
-    for t in ts:
-        hit = [u for u, o in objs.items() if o is t]
-        if len(hit) != 1:
-            return False
-        ident[id(t)] = hit[0]
-    if len(set(ident.values())) != len(objs):
-        return False
-    got = set()
-    for t in ts:
-        for p in w.get_predecessors(t):
-            got.add((ident[id(p)], ident[id(t)]))
-        for q in w.get_successors(t):
-            if id(q) not in ident:
-                return False
-    if got != set(edges):
-        return False
-    nodes = [ident[id(t)] for t in ts]
-    if [ident[id(t)] for t in w.input_tasks] != _sources(nodes, edges):
-        return False
-    if [ident[id(t)] for t in w.output_tasks] != _sinks(nodes, edges):
-        return False
-    return len(w) == len(objs)
-
-
 def _build_add(E, s, calls, rev=False, single=False, ctx=None):
     n = N
     tasks = [Task(f't{i}', _mk(i, calls, bool(ctx and ctx[i])), *_statics(i, s)) for i in range(n)]
@@ -250,7 +220,8 @@ def _build_add(E, s, calls, rev=False, single=False, ctx=None):
 # obligations
 
 def _structure_ok_unordered(w, objs, edges):
-    """As _structure_ok, without demanding an order of tasks / input_tasks / output_tasks."""
+    """w holds exactly the task objects objs (dict id -> Task, identity) and exactly the declared edges; tasks,
+    input_tasks, output_tasks, get_predecessors, get_successors and len agree with the declaration (as sets)."""
     ts = w.tasks
     if len(ts) != len(objs) or len(w) != len(objs):
         return False
@@ -279,7 +250,7 @@ def exec_add(e01: bool, e02: bool, e12: bool, e03: bool, e13: bool, e23: bool, e
              e24: bool, e34: bool, rev: bool, single: bool, s0: int, s1: int, s2: int, s3: int, s4: int) -> bool:
     """
     Workflow of N tasks built by add_task (predecessor lists in entry or reversed order, a lone predecessor optionally
-    passed as a Task): builder and workflow hold exactly the declared tasks and edges in entry order; as_dask_dict
+    passed as a Task): builder and workflow hold exactly the declared tasks and edges; as_dask_dict
     evaluates to the reference value of the single sink, every task exactly once, static inputs first, then
     predecessor results in entry order; a workflow without exactly one sink is refused (ValueError).
     post: _ == True
@@ -292,9 +263,7 @@ def exec_add(e01: bool, e02: bool, e12: bool, e03: bool, e13: bool, e23: bool, e
     wf = Workflow(wb)
     nodes = list(range(N))
     objs = dict(enumerate(tasks))
-    if not _structure_ok(wb, objs, edges) or not _structure_ok(wf, objs, edges):
-        return False
-    if [t.name for t in wf.tasks] != [f't{i}' for i in nodes] or wf.name != 'wfname':
+    if not _structure_ok_unordered(wb, objs, edges) or not _structure_ok_unordered(wf, objs, edges):
         return False
     expected = reference(nodes, edges, [_statics(i, s) for i in nodes], nodes)
     return _check_exec(wf, nodes, edges, expected, calls)
@@ -352,7 +321,7 @@ def exec_context(e01: bool, e02: bool, e12: bool, e03: bool, e13: bool, e23: boo
     for i in nodes:
         t = byname[f't{i}']
         want = ((ctx,) if c[i] else ()) + tuple(_statics(i, s))
-        if t.function is not tasks[i].function or tuple(t.task_input) != want:
+        if tuple(t.task_input) != want:
             return False
     got_edges = set()
     for t in ts:
@@ -384,7 +353,8 @@ def insert_context_structure(e01: bool, e02: bool, e12: bool, e03: bool, e13: bo
                              ctx: int) -> bool:
     """
     insert_context on a builder: tasks whose function has `context` as first parameter are replaced by a task with
-    the same name and function and inputs (context, *old inputs); every other task object is kept; edges are kept.
+    the same name and function and inputs (context, *old inputs); every other task keeps name, function and inputs;
+    edges are kept.
     post: _ == True
     """
     _fresh()
@@ -399,12 +369,9 @@ def insert_context_structure(e01: bool, e02: bool, e12: bool, e03: bool, e13: bo
         if len(cands) != 1:
             return False
         t = cands[0]
-        if c[i]:
-            if t is tasks[i] or t.function is not tasks[i].function:
-                return False
-            if tuple(t.task_input) != (ctx,) + tuple(_statics(i, s)):
-                return False
-        elif t is not tasks[i]:
+        if t.function is not tasks[i].function:
+            return False
+        if tuple(t.task_input) != ((ctx,) if c[i] else ()) + tuple(_statics(i, s)):
             return False
         objs[i] = t
     return _structure_ok_unordered(wb, objs, edges) and _structure_ok_unordered(Workflow(wb), objs, edges)
@@ -587,7 +554,7 @@ def add_operator(a01: bool, a02: bool, a12: bool, b01: bool, b02: bool, b12: boo
     other = Workflow(wbb)
     if as_builder:
         res = wa + other
-        if not isinstance(res, WorkflowBuilder) or res.name != 'A':
+        if not isinstance(res, WorkflowBuilder):
             return False
         fin = Workflow(res)
     else:
